@@ -54,25 +54,13 @@ Json eventToJson(const EvS& v) {
 Json eventsToJson(const Script& s) { Json a = Json::array(); for (auto& e : s.ev) a.push(eventToJson(e)); return a; }
 Json cdataToJson(const Script& s) { Json a = Json::array(); for (auto& n : s.cdataElems) a.push(nameToJson(n)); return a; }
 
-uint32_t scriptMask(const Script& s) {
-    uint32_t m = 0;
-    for (auto& e : s.ev) { m |= classMask(e.name) | classMask(e.text) | classMask(e.target); for (auto& a : e.attrs) m |= classMask(a.name) | classMask(a.value); }
-    return m;
-}
-Script replaceClassInScript(const Script& s, int k) {
-    Script r = s;
-    for (auto& n : r.cdataElems) n = replaceClass(n, k);
-    for (auto& e : r.ev) { e.name = replaceClass(e.name, k); e.text = replaceClass(e.text, k); e.target = replaceClass(e.target, k); for (auto& a : e.attrs) { a.name = replaceClass(a.name, k); a.value = replaceClass(a.value, k); } }
-    return r;
-}
-
 // =================================================================== model: what is fed to a serializer, and the tree that must come back
 enum FK { F_SE, F_EE, F_CH, F_CD, F_IW, F_CM, F_PI, F_FL };
 struct Feed { FK k; XS name, text, target; std::vector<AttrS> attrs; };
 enum NK { N_SE, N_EE, N_T, N_C, N_PI };
 struct AttrV { XS uri, value; };
 struct Node { NK k; XS qname, uri, text; std::map<XS, AttrV> attrs; bool viaCdata = false; };
-struct Model { std::vector<Feed> feed; std::vector<Node> exp; };
+struct Model { std::vector<Feed> feed; std::vector<Node> exp; std::vector<bool> evCdata; /* per script event: character data that goes through cdata() */ };
 
 const XS XMLNS = ascii("xmlns");
 XS stripNul(const XS& s) { XS r; for (auto c : s) if (c) r += c; return r; }
@@ -92,9 +80,9 @@ void addText(Model& m, const XS& t, bool viaCdata) {
 Model buildModel(const Script& s) {
     Model m; std::vector<XS> open; std::vector<std::map<XS, XS>> ns(1); ns[0][ascii("xml")] = ascii("http://www.w3.org/XML/1998/namespace");
     std::set<XS> cd(s.cdataElems.begin(), s.cdataElems.end());
-    bool rootDone = false; int skip = 0;
-    for (auto& e : s.ev) {
-        const std::string& k = e.kind;
+    bool rootDone = false; int skip = 0; m.evCdata.assign(s.ev.size(), false);
+    for (size_t evi = 0; evi < s.ev.size(); ++evi) {
+        const EvS& e = s.ev[evi]; const std::string& k = e.kind;
         if (skip > 0) { if (k == "startElement") ++skip; else if (k == "endElement") --skip; continue; }
         if (k == "startElement") {
             if (open.empty() && rootDone) { skip = 1; continue; }
@@ -128,6 +116,7 @@ Model buildModel(const Script& s) {
             Feed f; f.text = e.text;
             if (k == "ignorableWhitespace") { XS w; for (auto c : e.text) if (isXmlWs(c)) w += c; f.text = w; f.k = F_IW; }
             else f.k = (k == "cdata" || cd.count(open.back())) ? F_CD : F_CH;
+            m.evCdata[evi] = f.k == F_CD;
             if (f.text.empty()) continue;
             m.feed.push_back(f); addText(m, f.text, f.k == F_CD);
         } else if (k == "comment") {
@@ -212,8 +201,9 @@ Cfg withoutFault(const Cfg& c) { Cfg r = c; r.fault = SinkFault(); return r; }
 // =================================================================== running one configuration
 struct Out {
     std::string bytes; std::vector<size_t> chunks; bool threw = false; std::string excType, excMsg; int excAt = -1;
-    uint64_t writes = 0, flushes = 0, fired = 0, writesAfterFault = 0, writesAtEnd = 0, flushesAtEnd = 0; bool skipped = false;
+    uint64_t writes = 0, flushes = 0, fired = 0, writesAfterFault = 0, writesAtEnd = 0, flushesAtEnd = 0, badFrees = 0, refused = 0; bool skipped = false;
 };
+const uint64_t MEM_BUDGET = 24u << 20;
 
 template <class F> void guarded(Out& o, F f) {
     try { f(); }
@@ -301,15 +291,15 @@ std::string stylesheetFor(const Script& s, const Model& m, const Cfg& c) {
 
 Out runCfg(const Script& s, const Model& m, const Cfg& c, const SinkFault& fault) {
     Out o; SimSink sink; sink.reset(fault);
-    MemoryManager& mm = XalanMemMgrs::getDefaultXercesMemMgr();
+    SimMemoryManager mm; mm.budget = MEM_BUDGET;    // a runaway allocation becomes an ordinary refused allocation instead of eating the machine
     if (c.ser == "pipeline") {
         if (!xml10Clean(m)) { o.skipped = true; return o; }
         std::string doc = sourceDocument(m), xsl = stylesheetFor(s, m, c);
         guarded(o, [&] {
-            XalanTransformer T;
+            XalanTransformer T(mm);
             SimIStream dis(doc, SrcFault()), sis(xsl, SrcFault());
-            XSLTInputSource din(&dis), sin(&sis);
-            din.setSystemId(XalanDOMString((std::string(SIM_BASE) + "doc.xml").c_str()).c_str()); sin.setSystemId(XalanDOMString((std::string(SIM_BASE) + "ss.xsl").c_str()).c_str());
+            XSLTInputSource din(&dis, mm), sin(&sis, mm);
+            din.setSystemId(XalanDOMString((std::string(SIM_BASE) + "doc.xml").c_str(), mm).c_str()); sin.setSystemId(XalanDOMString((std::string(SIM_BASE) + "ss.xsl").c_str(), mm).c_str());
             int st;
             if (c.form == "stream") { SinkXalanOutputStream os(sink, mm, c.b, c.t); XalanOutputStreamPrintWriter pw(os); XSLTResultTarget rt(&pw, mm); st = T.transform(din, sin, rt); }
             else st = T.transform(din, sin, &sink, sinkCallback, sinkFlushCallback);
@@ -337,6 +327,7 @@ Out runCfg(const Script& s, const Model& m, const Cfg& c, const SinkFault& fault
         }
         // ~XalanOutputStreamPrintWriter flushes: with a dead sink that must not escape
     }
+    o.badFrees = mm.foreignFrees + mm.doubleFrees; o.refused = mm.refused;
     o.bytes.swap(sink.bytes); o.chunks.swap(sink.chunks); o.writes = sink.writes; o.flushes = sink.flushes; o.fired = sink.faultsFired; o.writesAfterFault = sink.writesAfterFault;
     return o;
 }
@@ -439,9 +430,10 @@ std::string culprit(const std::vector<Node>& e, const std::vector<Node>& a, bool
 }
 
 // =================================================================== evaluation context of one script
-struct Finding { std::string cls, construct, detail; };
+struct Finding { std::string cls, extra, detail; };   // extra: part of the signature that is not a character class (fault kind, ...)
 typedef std::unique_ptr<Finding> FindingP;
-FindingP finding(const std::string& c, const std::string& k, const std::string& d) { FindingP f(new Finding); f->cls = c; f->construct = k; f->detail = d; return f; }
+FindingP finding(const std::string& c, const std::string& x, const std::string& d) { FindingP f(new Finding); f->cls = c; f->extra = x; f->detail = d; return f; }
+std::string baseClass(const std::string& c) { return c.compare(0, 15, "error-expected:") == 0 ? c.substr(15) : c; }
 
 uint64_t g_serializerRuns = 0, g_parses = 0;
 
@@ -459,25 +451,25 @@ struct Eval {
 };
 
 std::string excName(const Out& o) { return o.excType + (o.excMsg.empty() ? "" : ": " + o.excMsg.substr(0, 160)); }
-std::string feedConstruct(const Model& m, int at) {
-    if (at < 0 || at >= (int)m.feed.size()) return "document";
-    switch (m.feed[at].k) { case F_SE: return "tag"; case F_EE: return "end-tag"; case F_CH: case F_IW: return "text"; case F_CD: return "cdata"; case F_CM: return "comment"; case F_PI: return "pi"; default: return "flush"; }
-}
+bool runaway(const Out& o) { return o.threw && o.refused > 0; }
+FindingP runawayFinding(const Out& o, const Cfg& c) { return finding("runaway-allocation", "", "[" + c.key() + "] asked for more than " + std::to_string(MEM_BUDGET >> 20) + " MiB while writing a document of a few kilobytes (refused; seen as " + o.excType + ")"); }
 
-// oracles 1 and 2 on one fault-free configuration
+// oracles 1 and 2 on one fault-free configuration of the xml output method (factory product, or the whole pipeline)
 FindingP probeSingle(Eval& ev, const Cfg& c) {
     const Out& o = ev.out(c); if (o.skipped) return nullptr;
     bool cmpXmlns = c.ser != "pipeline";
+    if (o.badFrees) return finding("bad-free", "", "[" + c.key() + "] released memory through the manager that it did not own (foreign or double free)");
+    if (runaway(o)) return runawayFinding(o, c);
     if (o.threw) {
         if (!ev.repr.ok) return nullptr;
-        return finding("spurious-error", c.ser == "pipeline" ? "pipeline" : feedConstruct(ev.m, o.excAt), "the tree is representable in XML " + ev.s.version + " / " + ev.s.encoding + " but serialization failed with " + excName(o));
+        return finding("spurious-error", "", "the tree is representable in XML " + ev.s.version + " / " + ev.s.encoding + " but serialization failed with " + excName(o));
     }
     const Parsed& p = ev.parse(c);
     std::string pre = ev.repr.ok ? "" : "error-expected:";
     std::string why = ev.repr.ok ? "" : " (the tree is not representable: " + ev.repr.why + "; an error was the acceptable outcome)";
-    if (!p.ok) return finding(pre + "not-well-formed", culprit(ev.m.exp, p.nodes, cmpXmlns), "output of " + std::to_string(o.bytes.size()) + " bytes is not well-formed: " + p.err + why);
+    if (!p.ok) return finding(pre + "not-well-formed", "", "output of " + std::to_string(o.bytes.size()) + " bytes is not well-formed: " + p.err + " (first expected node that did not arrive: " + culprit(ev.m.exp, p.nodes, cmpXmlns) + ")" + why);
     Diff d = compareTrees(ev.m.exp, p.nodes, cmpXmlns);
-    if (d.any) return finding(pre + "tree-differs", d.construct, d.what + why);
+    if (d.any) return finding(pre + "tree-differs", "", d.what + why);
     return nullptr;
 }
 // oracle 3
@@ -489,14 +481,18 @@ FindingP probeKnob(Eval& ev, const Cfg& a, const Cfg& b) {
         return finding("knob-dependent", "bytes", "output differs between [" + a.key() + "] (" + std::to_string(x.bytes.size()) + " bytes) and [" + b.key() + "] (" + std::to_string(y.bytes.size()) + " bytes), first at byte " + std::to_string(i)); }
     return nullptr;
 }
-// oracle 4
+// oracle 4: wherever the factory product round-trips, FormatterToXML must give the same tree
 FindingP probeAgree(Eval& ev, const Cfg& fac, const Cfg& leg) {
-    const Out& x = ev.out(fac); const Out& y = ev.out(leg); if (x.threw || y.threw) return nullptr;
-    const Parsed& p = ev.parse(fac); const Parsed& q = ev.parse(leg); if (!p.ok || !q.ok) return nullptr;
+    const Out& y = ev.out(leg);
+    if (y.badFrees) return finding("bad-free", "", "[" + leg.key() + "] released memory through the manager that it did not own (foreign or double free)");
+    if (runaway(y)) return runawayFinding(y, leg);
+    const Out& x = ev.out(fac); if (x.threw) return nullptr;
+    const Parsed& p = ev.parse(fac); if (!p.ok || compareTrees(ev.m.exp, p.nodes, true).any) return nullptr;    // the factory product itself is wrong: oracle 1 reports that
+    if (y.threw) return finding("serializers-disagree", "", "the factory product round-trips, FormatterToXML failed with " + excName(y));
+    const Parsed& q = ev.parse(leg);
+    if (!q.ok) return finding("serializers-disagree", "", "the factory product round-trips, FormatterToXML output (" + std::to_string(y.bytes.size()) + " bytes) is not well-formed: " + q.err + " (first node that did not arrive: " + culprit(p.nodes, q.nodes, true) + ")");
     Diff d = compareTrees(p.nodes, q.nodes, true); if (!d.any) return nullptr;
-    bool fOk = !compareTrees(ev.m.exp, p.nodes, true).any, lOk = !compareTrees(ev.m.exp, q.nodes, true).any;
-    if (fOk != lOk) return nullptr;      // exactly one of them is wrong against the script: reported by oracle 1 on that serializer
-    return finding("serializers-disagree", d.construct, "factory product vs FormatterToXML: " + d.what);
+    return finding("serializers-disagree", "", "factory product vs FormatterToXML: " + d.what);
 }
 // oracle 5
 FindingP probeFault(Eval& ev, const Cfg& c, Out* faultedOut = nullptr) {
@@ -514,22 +510,59 @@ FindingP probeFault(Eval& ev, const Cfg& c, Out* faultedOut = nullptr) {
 }
 
 // =================================================================== signatures and in-process minimisation
+// The signature names what is *essential* for the finding: (construct, character class) pairs that cannot be replaced by
+// plain ASCII without losing it, and the XML version only if the other version does not show it.  It is computed from the
+// script alone, so the full plan and every reduced plan of the same finding get the same signature.
+enum CK { K_NAME, K_ATTR, K_TEXT, K_CDATA, K_COMMENT, K_PI, K_N };
+static const char* const CK_NAME[K_N] = { "name", "attr", "text", "cdata", "comment", "pi" };
+template <class F> void forEachString(Script& s, const std::vector<bool>& evCdata, F fn) {
+    for (auto& n : s.cdataElems) fn(n, K_NAME);
+    for (size_t i = 0; i < s.ev.size(); ++i) {
+        EvS& e = s.ev[i];
+        if (e.kind == "startElement") { fn(e.name, K_NAME); for (auto& a : e.attrs) { fn(a.name, K_NAME); fn(a.value, K_ATTR); } }
+        else if (e.kind == "characters" || e.kind == "ignorableWhitespace") fn(e.text, i < evCdata.size() && evCdata[i] ? K_CDATA : K_TEXT);
+        else if (e.kind == "cdata") fn(e.text, K_CDATA);
+        else if (e.kind == "comment") fn(e.text, K_COMMENT);
+        else if (e.kind == "pi") { fn(e.target, K_NAME); fn(e.text, K_PI); }
+    }
+}
+struct PairMask { uint32_t m[K_N] = { 0, 0, 0, 0, 0, 0 }; };
+PairMask pairsOf(const Script& s) {
+    PairMask pm; Script& w = const_cast<Script&>(s); Model m = buildModel(s); EncInfo& enc = encInfo(s.encoding); bool v11 = s.version == "1.1";
+    forEachString(w, m.evCdata, [&](XS& x, CK k) { pm.m[k] |= sigMask(x, enc, v11); });
+    return pm;
+}
+std::string pairNames(const PairMask& pm) {
+    std::string r; for (int k = 0; k < K_N; ++k) for (int c = 1; c < S_N; ++c) if (pm.m[k] & (1u << c)) { if (!r.empty()) r += "+"; r += std::string(CK_NAME[k]) + "." + SCLS_NAME[c]; }
+    return r.empty() ? "any" : r;
+}
+Script replacePair(const Script& s, int k, int c) {
+    Script r = s; Model m = buildModel(s); EncInfo& enc = encInfo(s.encoding); bool v11 = s.version == "1.1";
+    forEachString(r, m.evCdata, [&](XS& x, CK kk) { if (kk == k) x = replaceSigClass(x, c, enc, v11); });
+    return r;
+}
+
 typedef std::function<FindingP(Eval&)> Probe;
-struct Sig { bool any = false; std::string cls, construct, classes, detail; Script reduced; std::string str() const { return cls + "|" + construct + "|" + classes; } };
+struct Sig { bool any = false; std::string cls, ver, pairs, extra, detail; Script reduced; std::string str() const { return cls + "|" + ver + "|" + pairs + "|" + extra; } };
 
 uint64_t g_evals = 0;
-// class and construct of the finding plus the character classes that are essential for it
+FindingP probeOn(const Script& s, const Probe& pr) { ++g_evals; Eval ev(s); return pr(ev); }
+
 Sig sigOf(const Script& s, const Probe& pr, bool wantClasses) {
-    Sig r; ++g_evals; { Eval ev(s); FindingP f = pr(ev); if (!f) return r; r.any = true; r.cls = f->cls; r.construct = f->construct; r.detail = f->detail; }
-    r.reduced = s;
-    if (wantClasses) {
-        for (int k = 1; k < C_N; ++k) {
-            if (!(scriptMask(r.reduced) & (1u << k))) continue;
-            Script cand = replaceClassInScript(r.reduced, k); ++g_evals; Eval ev(cand); FindingP f = pr(ev);
-            if (f && f->cls == r.cls && f->construct == r.construct) r.reduced = cand;
-        }
-        r.classes = maskNames(scriptMask(r.reduced));
+    Sig r; FindingP f0 = probeOn(s, pr); if (!f0) return r;
+    r.any = true; r.cls = f0->cls; r.extra = f0->extra; r.detail = f0->detail; r.ver = s.version; r.reduced = s;
+    if (!wantClasses) return r;
+    const std::string base = baseClass(f0->cls);
+    auto same = [&](const FindingP& f) { return f && baseClass(f->cls) == base && f->extra == r.extra; };
+    // is the version essential?
+    { Script o = s; o.version = s.version == "1.1" ? "1.0" : "1.1"; if (same(probeOn(o, pr))) { r.ver = "1.x"; r.reduced.version = "1.0"; } }
+    for (int k = 0; k < K_N; ++k) for (int c = 1; c < S_N; ++c) {
+        if (!(pairsOf(r.reduced).m[k] & (1u << c))) continue;
+        Script cand = replacePair(r.reduced, k, c);
+        if (same(probeOn(cand, pr))) r.reduced = cand;
     }
+    FindingP fin = probeOn(r.reduced, pr); if (fin) { r.cls = fin->cls; r.detail = fin->detail; }
+    r.pairs = pairNames(pairsOf(r.reduced));
     return r;
 }
 
@@ -547,8 +580,8 @@ Script minimise(const Script& start, const Probe& pr, const std::string& want, b
     auto shrinkStr = [&](std::function<XS&(Script&)> get) {
         std::vector<uint32_t> v = decode(get(cur)); if (v.empty()) return;
         { Script c = cur; get(c).clear(); if (ok(c)) { cur = c; return; } }
-        for (size_t chunk = (v.size() + 1) / 2; chunk >= 1 && budget > 0; chunk = chunk == 1 ? 0 : (chunk + 1) / 2) {
-            for (size_t i = 0; i < v.size() && budget > 0;) {
+        for (size_t chunk = (v.size() + 1) / 2; chunk >= 1 && budget > 0; chunk = (chunk + 1) / 2) {
+            for (size_t i = 0; i < v.size() && v.size() > 1 && budget > 0;) {
                 std::vector<uint32_t> w(v.begin(), v.begin() + i); if (i + chunk < v.size()) w.insert(w.end(), v.begin() + i + chunk, v.end());
                 Script c = cur; get(c) = encode(w); if (ok(c)) { cur = c; v = w; } else i += chunk;
             }
